@@ -364,3 +364,19 @@ Theorem c20_assign_imm_in_bounds : forall limit ours h tl freq ma ma_len,
   exists lv rc s, imm_handler limit ours h tl freq ma ma_len = AsEst lv (Ok rc s) /\ Zlength lv = 9 /\ zn lv 0 <= limit.
 Proof. exact imm_safe. Qed.
 Print Assumptions c20_assign_imm_in_bounds.
+
+From OBB Require Import Gen.TrxIfConst Model.Trxd Model.TrxIf Proofs.TrxIfSetfhP.
+(* ---- the consumer at the far end: trxcon's SETFH composer (trx_if_cmd_setfh in trx_if.c, model Model/TrxIf.v) ----
+   setfh_pair a = "<downlink kHz> <uplink kHz> " of ARFCN a (gsm_arfcn2freq10 * 100), setfh_pairs = the concatenation over the list.
+   Given the hopping list (whatever its length and content) the composer either queues exactly ONE command
+   'CMD SETFH <hsn> <maio> <pairs of EVERY channel of the list, in order>' (only the trailing space cut) - possible only when every
+   channel has a frequency and the pairs fit the 999 characters of room in ma_buf[1000] - or it returns an error and queues
+   NOTHING: no truncated list, no list with a channel dropped or added, no write beyond the buffer.  (62 channels of the DCS band
+   fit, 63 are refused with -ENOSPC: Example setfh_dcs_62_63.) *)
+Theorem c20_setfh_carries_exactly_the_list : forall hsn maio ma rc q,
+  c_phyif_cmd (PSetFreqH1 hsn maio ma) = CmdQ rc q ->
+  (rc = 0 -> ma <> [] /\ Forall freq_defined ma /\ Z.of_nat (length (setfh_pairs ma)) <= 999 /\
+             q = [(true, c_ctrl_cmd v_SETFH (dec_u (u8 hsn) ++ [SP] ++ dec_u (u8 maio) ++ [SP] ++ removelast (setfh_pairs ma)))]) /\
+  (rc <> 0 -> q = [] /\ (ma = [] \/ ~ Forall freq_defined ma \/ 999 < Z.of_nat (length (setfh_pairs ma)))).
+Proof. exact setfh_carries_list. Qed.
+Print Assumptions c20_setfh_carries_exactly_the_list.
